@@ -4,6 +4,9 @@ use std::mem::MaybeUninit;
 #[cfg_attr(feature = "verif-hooks", repr(C))]
 pub struct RecordMaybeUninit<const CAP: usize> {
     data: [MaybeUninit<u8>; CAP],
+    // The buffer may hold values of any type: it is neither `Send` nor `Sync` by itself, the
+    // generated record types implement those traits when all their data do.
+    _not_send_sync: std::marker::PhantomData<*const u8>,
     #[cfg(feature = "verif-hooks")]
     shadow: crate::verif::Shadow<CAP>,
 }
@@ -18,6 +21,7 @@ impl<const CAP: usize> RecordMaybeUninit<CAP> {
     pub fn new() -> Self {
         Self {
             data: unsafe { std::mem::MaybeUninit::uninit().assume_init() },
+            _not_send_sync: std::marker::PhantomData,
             #[cfg(feature = "verif-hooks")]
             shadow: crate::verif::Shadow::new(),
         }
